@@ -296,11 +296,18 @@ func ruRomanTyped[T string | []byte](err error) bool {
 // {DefaultParser, Valid} and UnmarshalText, against the expectation (v, ok) of the recogniser.
 func ruCheckRoman(rep *ruRep, s string, v uint64, ok bool) {
 	for rule := 0; rule < 2; rule++ {
-		rule := rule
+		ruCheckRomanRule(rep, s, v, ok, rule)
+	}
+	ruCheckRomanUnmarshal(rep, s, v, ok)
+}
+
+// ruCheckRomanRule: DefaultParser and Valid, string and []byte, under one rule value (any int: the rule is tested bit by bit).
+func ruCheckRomanRule(rep *ruRep, s string, v uint64, ok bool, rule int) {
+	{
 		line := func() string { return fmt.Sprintf("roman.parse %d %d %s", roman.MaxInputLength, rule, hx([]byte(s))) }
 		ruGuard(rep, "C10", line, func() {
 			rep.evals++
-			wantOK := ok && !(len(s) == 0 && rule == 1)
+			wantOK := ok && !(len(s) == 0 && rule&1 != 0)
 			r := roman.Rule(rule)
 			n1, e1 := roman.DefaultParser(s, r)
 			n2, e2 := roman.DefaultParser([]byte(s), r)
@@ -338,6 +345,10 @@ func ruCheckRoman(rep *ruRep, s string, v uint64, ok bool) {
 			}
 		})
 	}
+}
+
+// ruCheckRomanUnmarshal: UnmarshalText against the same expectation (default rule).
+func ruCheckRomanUnmarshal(rep *ruRep, s string, v uint64, ok bool) {
 	line := func() string { return fmt.Sprintf("roman.parse %d 0 %s", roman.MaxInputLength, hx([]byte(s))) }
 	ruGuard(rep, "C10.unmarshal", line, func() {
 		rep.evals++
@@ -549,6 +560,111 @@ func propC02(c *Ctx) {
 		}
 	}
 	c.Note("direct oracle: %d numbers x 128 flag sets; %d of the (n, short/long) numerals fit 128 bytes", len(ns), fit)
+
+	// ---- format flags are tested bit by bit: unknown extra bits (and negative values) change nothing
+	rep0 := &ruRep{}
+	for ni, n := range ruSpecialN {
+		if n > 5000 {
+			continue
+		}
+		for _, fl := range extValues(128) {
+			if fl >= 0 && fl < 128 {
+				continue
+			}
+			want := ruNumeral(n, fl)
+			b, err := roman.DefaultFormatter(nil, roman.Number(n), roman.Format(fl))
+			rep0.evals++
+			line := fmt.Sprintf("roman.format %d %d -", n, fl)
+			if err != nil || string(b) != want || want != ruNumeral(n, fl&127) {
+				rep0.fail("C02.flagbits", line, "got %q %v, want %q", b, err, want)
+			} else if p, err := roman.DefaultParser(b, 0); err != nil || uint64(p) != n {
+				rep0.fail("C02.flagbits.roundtrip", "roman.parse 128 0 "+hx(b), "%q -> %d %v, want %d", b, uint64(p), err, n)
+			}
+			if ni%9 == 4 || n == 0 || n == 3999 {
+				c.Op(line)
+			}
+		}
+	}
+	rep0.merge(c)
+
+	// ---- numbers far above the usual range with the limit switched off: Number is a uint64 and every numeral "fits" then
+	func() {
+		defer ruSetRomanMax(0)()
+		repL := &ruRep{}
+		for _, n := range []uint64{130001, 200000, 1000000, 65535999, 65536000, 65536001, 1<<20*1000 + 999, 70000004} {
+			for _, fl := range []int{0, 63, 64, 127} {
+				if n > 1000000 && fl != 0 && (fl != 127 || n > 70000004) {
+					continue // a numeral of a mebibyte takes a third of a second to parse: one flag set is enough there
+				}
+				n, fl := n, fl
+				line := func() string { return fmt.Sprintf("roman.format %d %d -", n, fl) }
+				ruGuard(repL, "C02.large", line, func() {
+					repL.evals++
+					want := strings.Repeat("M", int(n/1000))
+					if fl&64 != 0 {
+						want = strings.Repeat("m", int(n/1000))
+					}
+					want += ruNumeral(n%1000, fl)
+					b, err := roman.DefaultFormatter(nil, roman.Number(n), roman.Format(fl))
+					if err != nil || string(b) != want {
+						repL.fail("C02.large.canonical", line(), "numeral of %d bytes (%v), want %d bytes: %d x M + %q", len(b), err, len(want), n/1000, ruNumeral(n%1000, fl))
+						return
+					}
+					p1, e1 := roman.DefaultParser(b, 0)
+					ev := roman.Valid(b, 0)
+					p2, e2, u, eu := p1, e1, p1, e1
+					if n <= 70000004 {
+						p2, e2 = roman.DefaultParser(string(b), roman.RuleDisableEmptyAsZero)
+						u = roman.Number(987654321)
+						eu = u.UnmarshalText(b)
+					}
+					if e1 != nil || e2 != nil || ev != nil || eu != nil || uint64(p1) != n || uint64(p2) != n || uint64(u) != n {
+						repL.fail("C02.large.roundtrip", line(), "limit off, numeral of %d bytes -> %d %v / %d %v / %v / %d %v, want %d", len(b), uint64(p1), e1, uint64(p2), e2, ev, uint64(u), eu, n)
+					}
+				})
+			}
+			if n <= 1000000 {
+				roundtripOff := c.Op(fmt.Sprintf("roman.format %d 0 -", n))
+				c.Op("roman.parse 0 0 " + roundtripOff)
+				c.Op("roman.valid 0 1 " + roundtripOff)
+			}
+		}
+		repL.merge(c)
+	}()
+
+	// ---- the property is stated relative to the parser's input limit: under the limit the package ships with (captured
+	// before anything changed it) exactly the numerals that fit it round-trip, the longer ones are refused as too long
+	func() {
+		defer ruSetRomanMax(shipped.romanML)()
+		repS := &ruRep{}
+		for _, n := range ruSpecialN {
+			for _, fl := range []int{0, 63, 64, 127} {
+				want := ruNumeral(n, fl)
+				fits := shipped.romanML == 0 || len(want) <= shipped.romanML
+				p, err := roman.DefaultParser(want, 0)
+				u := roman.Number(987654321)
+				eu := u.UnmarshalText([]byte(want))
+				ev := roman.Valid(want, 0)
+				repS.evals++
+				line := fmt.Sprintf("roman.parse %d 0 %s", shipped.romanML, hx([]byte(want)))
+				if fits && (err != nil || eu != nil || ev != nil || uint64(p) != n || uint64(u) != n) {
+					repS.fail("C02.shipped", line, "under the shipped MaxInputLength %d the numeral of %d (%d bytes) -> %d %v / %d %v / %v", shipped.romanML, n, len(want), uint64(p), err, uint64(u), eu, ev)
+				}
+				if !fits && (!errors.Is(err, roman.ErrInputTooLong) || !errors.Is(eu, roman.ErrInputTooLong) || !errors.Is(ev, roman.ErrInputTooLong)) {
+					repS.fail("C02.shipped.limit", line, "%d bytes over the shipped limit %d: %v / %v / %v", len(want), shipped.romanML, err, eu, ev)
+				}
+			}
+		}
+		repS.merge(c)
+	}()
+
+	// ---- near misses of numerals through the model (the rejecting side belongs to C10; here only correspondence)
+	for _, base := range []string{"MCMXCIV", "mmxxiv", "", "MMMDCCCLXXXVIII"} {
+		for _, s := range nearMissTexts(base) {
+			c.Op("roman.parse 128 0 " + hx([]byte(s)))
+			c.Op("roman.valid 0 0 " + hx([]byte(s)))
+		}
+	}
 
 	// ---- the limit is the only obstacle: numerals longer than 128 bytes round-trip once the limit allows them
 	step := uint64(37)
@@ -794,8 +910,32 @@ func propC10(c *Ctx) {
 			}
 		}
 	}
+	// near misses a lenient parser would forgive — a line terminator, a CRLF, blanks, NUL, a BOM, a doubled end letter glued
+	// to a numeral (two or more foreign bytes, which the one-byte sweep above cannot build), and one letter replaced by
+	// a multi-byte look-alike (full-width, Cyrillic, Greek, Roman-numeral code points, dotless / dotted i)
+	nNear := 0
+	for _, base := range bases {
+		for _, s := range nearMissTexts(base) {
+			v, ok := lang.recognise(s)
+			rep.nt++
+			nNear++
+			ruCheckRoman(rep, s, v, ok)
+			c.Op("roman.parse 128 0 " + hx([]byte(s)))
+			c.Op("roman.valid 128 1 " + hx([]byte(s)))
+			c.Op("roman.parse 0 1 " + hx([]byte(s)))
+		}
+	}
+	// the rule is a set of flags: the empty text is refused exactly when the RuleDisableEmptyAsZero bit is set
+	for _, s := range []string{"", "MCMXCIV", "mmxxiv", "IIII", "IM", "MCMXCIV\n", " ", "i"} {
+		v, ok := lang.recognise(s)
+		for _, rule := range extValues(2) {
+			ruCheckRomanRule(rep, s, v, ok, rule)
+			c.Op(fmt.Sprintf("roman.parse 128 %d %s", rule, hx([]byte(s))))
+			c.Op(fmt.Sprintf("roman.valid 128 %d %s", rule, hx([]byte(s))))
+		}
+	}
 	rep.merge(c)
-	c.Note("foreign-byte texts: %d", nForeign)
+	c.Note("foreign-byte texts: %d, near-miss texts: %d", nForeign, nNear)
 
 	// ---- longer texts: numerals built from the group table, then edited and re-cased
 	var tails []string
@@ -1312,6 +1452,67 @@ func propC05(c *Ctx) {
 	c.NT(int64(nMut))
 	c.Note("mutated texts: %d from %d valid texts", nMut, len(texts))
 
+	// ---- near misses a lenient parser would forgive: a complete valid text with a line terminator, CRLF, blank, NUL, BOM,
+	// a doubled end digit … before or after it (two and more extra bytes included), and one hex digit, hyphen or prefix
+	// letter replaced by a multi-byte look-alike
+	nmBases := []string{uuoFormat(0x0123456789abcdef, 0xfedcba9876543210), "urn:uuid:" + uuoFormat(p1[0], p1[1]), uuoUpper(uuoFormat(p2[0], p2[1])), "URN:uuid:" + uuoUpper(uuoFormat(p3[0], p3[1]))}
+	nNear := 0
+	for _, base := range nmBases {
+		for _, s := range nearMissTexts(base) {
+			for _, r := range allRules {
+				for _, ml := range []int{45, 0, 64, len(s)} {
+					uuoCheck(c, s, ml, r)
+				}
+			}
+			nNear++
+			c.Op(fmt.Sprintf("uu.parse 0 %d %s", nNear&3, hx([]byte(s))))
+			c.Op(fmt.Sprintf("uu.parse 64 0 %s", hx([]byte(s))))
+		}
+	}
+	c.NT(int64(nNear))
+
+	// ---- rules and format flags are sets of bits: unknown extra bits (and negative values) change nothing
+	for _, s := range []string{nmBases[0], nmBases[1], nmBases[2], nmBases[3], "uRn:uuid:" + nmBases[2], nmBases[0][:35] + "g", nmBases[0] + "\n", ""} {
+		for _, r := range extValues(4) {
+			uuoCheck(c, s, 45, r)
+			c.Op(fmt.Sprintf("uu.parse 45 %d %s", r, hx([]byte(s))))
+		}
+	}
+	for _, bg := range bgs[:4] {
+		want := uuoFormat(bg[0], bg[1])
+		for _, fl := range extValues(2) {
+			line := fmt.Sprintf("uu.format %d %d %d -", bg[0], bg[1], fl)
+			c.Op(line)
+			w := want
+			if fl&1 != 0 {
+				w = "urn:uuid:" + want
+			}
+			b, err := uu.DefaultFormatter(nil, uu.ID{Higher: bg[0], Lower: bg[1]}, uu.Format(fl))
+			c.Check(line)
+			if err != nil || string(b) != w {
+				c.Fail("C05.format.flagbits", line, "flag %d: %q %v, want %q", fl, b, err, w)
+			}
+		}
+	}
+
+	// ---- the property names no setting: both forms parse back under the input limit the package ships with (captured
+	// before anything changed it)
+	for _, bg := range bgs {
+		id := uu.ID{Higher: bg[0], Lower: bg[1]}
+		for _, txt := range uuoTexts(uuoFormat(bg[0], bg[1])) {
+			uu.MaxInputLength = shipped.uuML
+			line := fmt.Sprintf("uu.parse %d 0 %s", shipped.uuML, hx([]byte(txt)))
+			g1, e1 := uu.DefaultParser(txt, 0)
+			g2, e2 := uu.DefaultParser([]byte(txt), 0)
+			var u uu.ID
+			eu := u.UnmarshalText([]byte(txt))
+			c.Check(line)
+			if e1 != nil || e2 != nil || eu != nil || g1 != id || g2 != id || u != id {
+				c.Fail("C05.shipped", line, "under the shipped MaxInputLength %d: %q -> %v %v / %v %v / %v %v", shipped.uuML, txt, g1, e1, g2, e2, u, eu)
+			}
+		}
+	}
+
 	// ---- prefixes, lengths and limits
 	body := uuoFormat(p1[0], p1[1])
 	for _, pre := range []string{"urn:uuid:", "URN:uuid:", "URN:UUID:", "urn:UUID:", "urn:Uuid:", "Urn:uuid:", "uRN:uuid:", "urn;uuid:", "urn:uuid;", "uuid:urn:",
@@ -1541,9 +1742,27 @@ func propC19(c *Ctx) {
 	if runtime.NumCPU() <= 4 {
 		ps = []int{1, 2, 3, 8}
 	}
+	// every ID of the generator as shipped goes into ONE set for the whole run ("no duplicate within a run": a generator
+	// that replays its stream after some tens of thousands of calls has no duplicate inside any single batch)
+	runSeen := make(map[uu.ID]struct{}, 1<<20)
+	runDup := 0
+	noteRun := func(key string, ids []uu.ID) {
+		for _, id := range ids {
+			if _, dup := runSeen[id]; dup {
+				runDup++
+				if runDup <= 3 {
+					c.Fail("C19.duplicate.run", "", "%s: %v was already generated earlier in this run (%d IDs so far)", key, id, len(runSeen))
+				}
+			}
+			runSeen[id] = struct{}{}
+		}
+	}
 	examine := func(key string, ids []uu.ID) {
 		var oh, ol, ah, al uint64 = 0, 0, ^uint64(0), ^uint64(0)
 		seen := make(map[uu.ID]struct{}, len(ids))
+		if strings.HasPrefix(key, "shipped") {
+			noteRun(key, ids)
+		}
 		for _, id := range ids {
 			if id.Version() != 4 || id.Variant() != 1 || id.Higher>>12&0xf != 4 || id.Lower>>62 != 2 {
 				c.Fail("C19.version", "", "%s: %v has version %d variant %d", key, id, id.Version(), id.Variant())
@@ -1628,5 +1847,20 @@ func propC19(c *Ctx) {
 		}
 	}
 	runtime.GOMAXPROCS(oldProcs)
+	// a long sequential stretch of the shipped generator (one goroutine, then four), into the same set
+	nSeq := 300000
+	if c.Thorough {
+		nSeq = 1500000
+	}
+	c.Check("shipped sequential")
+	seq := c19Run(1, nSeq)
+	examine("shipped sequential", seq)
+	seq = c19Run(4, nSeq/4)
+	examine("shipped sequential g=4", seq)
+	totalIDs += int64(nSeq + nSeq/4)
+	if runDup > 0 {
+		c.Fail("C19.duplicate.run.count", "", "%d duplicates among the %d IDs the shipped generator produced in this run", runDup, len(runSeen)+runDup)
+	}
+	c.Note("shipped generator: %d distinct IDs in one set over the whole run", len(runSeen))
 	c.Note("concurrent runs: %d GOMAXPROCS values x %d goroutine counts x 4 generators, %d IDs in total", len(ps), len(gs), totalIDs)
 }
